@@ -94,8 +94,8 @@ const (
 	EvLoopBegin
 	EvLoopEnd
 	EvLoopZero // a range statement passed with zero iterations
-	EvAccess // guarded field access (only when requested)
-	EvAssert // x.(T)
+	EvAccess   // guarded field access (only when requested)
+	EvAssert   // x.(T)
 	EvPanic
 )
 
@@ -125,18 +125,22 @@ type Event struct {
 	Conditional bool // assignment inside a joined (not forked) if: may or may not have happened
 
 	// channel operations
-	Chan     ast.Expr
-	ChanObj  types.Object
-	Val      ast.Expr
-	Blocking bool
-	Select   *ast.SelectStmt
-	ChanLit  *ast.FuncLit // channel obtained by calling a variable bound to this literal (queue(sess))
+	Chan      ast.Expr
+	ChanObj   types.Object
+	Val       ast.Expr
+	Blocking  bool
+	Select    *ast.SelectStmt
+	ChanLit   *ast.FuncLit // channel obtained by calling a variable bound to this literal (queue(sess))
+	ChanField *types.Var   // the struct field the channel expression denotes on this path, when it resolves to one
 
 	// cond / outcome
 	Cond    ast.Expr
 	Outcome bool
 	Var     types.Object
 	DefCall *Event // the call that defined Var
+
+	RObj    types.Object   // EvAssign: the object the right-hand side names on this path (through inlined helpers' parameters)
+	ArgObjs []types.Object // EvCall: the same for each argument (nil where the argument is not a name)
 
 	// type case / assert
 	Types    []types.Type
@@ -292,11 +296,13 @@ type env struct {
 	vals  map[types.Object]Val
 	defs  map[types.Object]*Event // variable defined by the result of this call / comma-ok
 	links map[types.Object]link
-	typs  map[types.Object]types.Type // refined dynamic type of a variable (type switch / assertion)
+	typs  map[types.Object]types.Type   // refined dynamic type of a variable (type switch / assertion)
+	alias map[types.Object]types.Object // parameter of an inlined NEW helper -> the object passed at this call
 }
 
 func newEnv() *env {
-	return &env{vals: map[types.Object]Val{}, defs: map[types.Object]*Event{}, links: map[types.Object]link{}, typs: map[types.Object]types.Type{}}
+	return &env{vals: map[types.Object]Val{}, defs: map[types.Object]*Event{}, links: map[types.Object]link{}, typs: map[types.Object]types.Type{},
+		alias: map[types.Object]types.Object{}}
 }
 
 func (e *env) clone() *env {
@@ -312,6 +318,9 @@ func (e *env) clone() *env {
 	}
 	for k, v := range e.typs {
 		n.typs[k] = v
+	}
+	for k, v := range e.alias {
+		n.alias[k] = v
 	}
 	return n
 }
@@ -467,6 +476,127 @@ func (in *Interp) block(st *state, list []ast.Stmt, fr *frame, k func(*state)) {
 }
 
 func (in *Interp) objOf(e ast.Expr) types.Object {
+	o := in.rawObjOf(e)
+	if o != nil && in.P != nil && in.P.Alias != nil {
+		return in.P.resolveAlias(o)
+	}
+	return o
+}
+
+// pathObj resolves an expression to the object it names on this path: like objOf, and additionally through the
+// parameters of inlined helpers (bound to their argument objects at this call site).
+func (in *Interp) pathObj(st *state, e ast.Expr) types.Object {
+	o := in.objOf(e)
+	for i := 0; i < 6 && o != nil; i++ {
+		t, ok := st.env.alias[o]
+		if !ok || t == o {
+			break
+		}
+		o = t
+	}
+	return o
+}
+
+// lhsObj: the object written by an assignment to l: a plain identifier is itself (a named local is only ever
+// written by its own definition), anything else resolves like objOf.
+func (in *Interp) lhsObj(l ast.Expr) types.Object {
+	if id, ok := ast.Unparen(l).(*ast.Ident); ok {
+		return in.rawObjOf(id)
+	}
+	return in.objOf(l)
+}
+
+// chanField resolves a channel expression to the struct field it denotes on this path: a field selection, or a
+// call of a function literal / in-repo function whose feasible returns (under the current valuation) all yield
+// the same field (queue(sess), sess.queueFor(qos)).
+func (in *Interp) chanField(st *state, e ast.Expr, depth int) *types.Var {
+	e = ast.Unparen(e)
+	if depth > 3 {
+		return nil
+	}
+	call, isCall := e.(*ast.CallExpr)
+	if !isCall {
+		if fv, ok := in.pathObj(st, e).(*types.Var); ok && fv.IsField() {
+			return fv
+		}
+		return nil
+	}
+	var body *ast.BlockStmt
+	var params []*types.Var
+	var recv *types.Var
+	sub := &Interp{P: in.P, Info: in.Info, Opts: in.Opts, fn: in.fn}
+	switch f := in.callee(st, call).(type) {
+	case *types.Var:
+		if v, ok := st.env.vals[f]; ok && v.K == VLit && v.Lit != nil {
+			body = v.Lit.Body
+			if v.Lit.Type.Params != nil {
+				for _, fld := range v.Lit.Type.Params.List {
+					for _, n := range fld.Names {
+						if pv, ok := in.Info.Defs[n].(*types.Var); ok {
+							params = append(params, pv)
+						}
+					}
+				}
+			}
+		}
+	case *types.Func:
+		if fi := in.P.ByObj[f]; fi != nil && fi.Decl.Body != nil {
+			body = fi.Decl.Body
+			sub.Info, sub.fn = fi.Pkg.TypesInfo, f
+			sig := f.Type().(*types.Signature)
+			recv = sig.Recv()
+			for i := 0; i < sig.Params().Len(); i++ {
+				params = append(params, sig.Params().At(i))
+			}
+		}
+	}
+	if body == nil {
+		return nil
+	}
+	s := st.fork()
+	if recv != nil {
+		if sel, ok := ast.Unparen(call.Fun).(*ast.SelectorExpr); ok {
+			if ao := in.pathObj(st, sel.X); ao != nil {
+				s.env.alias[recv] = ao
+			}
+		}
+	}
+	for i, p := range params {
+		delete(s.env.vals, p)
+		delete(s.env.alias, p)
+		if i < len(call.Args) {
+			if v := in.eval(st, call.Args[i]); v.Known() {
+				s.env.vals[p] = v
+			}
+			if ao := in.pathObj(st, call.Args[i]); ao != nil {
+				s.env.alias[p] = ao
+			}
+		}
+	}
+	var out *types.Var
+	ok, n := true, 0
+	fr := &frame{}
+	fr.ret = func(rs *state, r *ast.ReturnStmt, res []ast.Expr, vals []Val) {
+		n++
+		if len(res) != 1 {
+			ok = false
+			return
+		}
+		f := sub.chanField(rs, res[0], depth+1)
+		if f == nil || (out != nil && out != f) {
+			ok = false
+		}
+		out = f
+	}
+	sub.block(s, body.List, fr, func(*state) { ok = false })
+	if ok && n > 0 && !sub.Over {
+		return out
+	}
+	return nil
+}
+
+// rawObjOf resolves an expression to the object it names, without alias resolution.
+func (in *Interp) rawObjOf(e ast.Expr) types.Object {
 	switch x := e.(type) {
 	case *ast.Ident:
 		if o := in.Info.Uses[x]; o != nil {
@@ -479,9 +609,9 @@ func (in *Interp) objOf(e ast.Expr) types.Object {
 		}
 		return in.Info.Uses[x.Sel]
 	case *ast.ParenExpr:
-		return in.objOf(x.X)
+		return in.rawObjOf(x.X)
 	case *ast.StarExpr:
-		return in.objOf(x.X)
+		return in.rawObjOf(x.X)
 	}
 	return nil
 }
@@ -491,6 +621,114 @@ func (in *Interp) stmt(st *state, s ast.Stmt, fr *frame, k func(*state)) {
 	if in.Over {
 		return
 	}
+	// calls of NEW helpers nested inside the statement's expressions are interpreted first, in evaluation
+	// order, so that the statements a refactoring moved into them are seen where they run
+	if len(in.P.NewFuncs) > 0 && s != nil {
+		if calls := in.nestedNewCalls(st, s); len(calls) > 0 {
+			var run func(s0 *state, i int)
+			run = func(s0 *state, i int) {
+				if i == len(calls) {
+					in.stmtCore(s0, s, fr, k)
+					return
+				}
+				in.callStmt(s0, calls[i], fr, func(s1 *state, _ []Val) { run(s1, i+1) })
+			}
+			run(st, 0)
+			return
+		}
+	}
+	in.stmtCore(st, s, fr, k)
+}
+
+// nestedNewCalls: calls of NEW helpers inside the expressions evaluated by statement s itself (not inside nested
+// statements, function literals, go / defer), innermost first; the call that is the whole statement / sole
+// right-hand side / sole return operand / the (negated, conjoined) condition is left to the regular inlining.
+func (in *Interp) nestedNewCalls(st *state, s ast.Stmt) []*ast.CallExpr {
+	var roots []ast.Expr
+	top := func(e ast.Expr) ast.Expr { return ast.Unparen(e) }
+	var direct ast.Expr
+	switch x := s.(type) {
+	case *ast.ExprStmt:
+		roots, direct = []ast.Expr{x.X}, top(x.X)
+	case *ast.AssignStmt:
+		roots = append(roots, x.Rhs...)
+		for _, l := range x.Lhs {
+			roots = append(roots, l)
+		}
+		if len(x.Rhs) == 1 {
+			direct = top(x.Rhs[0])
+		}
+	case *ast.ReturnStmt:
+		roots = append(roots, x.Results...)
+		if len(x.Results) == 1 {
+			direct = top(x.Results[0])
+		}
+	case *ast.IncDecStmt:
+		roots = []ast.Expr{x.X}
+	case *ast.SendStmt:
+		roots = []ast.Expr{x.Chan, x.Value}
+	case *ast.SwitchStmt:
+		if x.Tag != nil {
+			roots = []ast.Expr{x.Tag}
+		}
+	case *ast.RangeStmt:
+		roots = []ast.Expr{x.X}
+	case *ast.IfStmt:
+		// a condition built from !, &&, || over direct calls is interpreted by cond(); anything else here
+		var leaves func(e ast.Expr)
+		leaves = func(e ast.Expr) {
+			switch y := ast.Unparen(e).(type) {
+			case *ast.UnaryExpr:
+				if y.Op == token.NOT {
+					leaves(y.X)
+					return
+				}
+			case *ast.BinaryExpr:
+				if y.Op == token.LAND || y.Op == token.LOR {
+					leaves(y.X)
+					leaves(y.Y)
+					return
+				}
+			case *ast.CallExpr:
+				// arguments of a direct call may still contain nested calls
+				for _, a := range y.Args {
+					roots = append(roots, a)
+				}
+				return
+			}
+			roots = append(roots, e)
+		}
+		if x.Init == nil {
+			leaves(x.Cond)
+		}
+	default:
+		return nil
+	}
+	var out []*ast.CallExpr
+	for _, r := range roots {
+		ast.Inspect(r, func(m ast.Node) bool {
+			switch y := m.(type) {
+			case *ast.FuncLit:
+				return false
+			case *ast.CallExpr:
+				if ast.Expr(y) == direct {
+					return true
+				}
+				if f, ok := in.callee(st, y).(*types.Func); ok && in.P.NewFuncs[f] {
+					out = append(out, y)
+				}
+			}
+			return true
+		})
+	}
+	// innermost first: reverse pre-order is a valid evaluation order for nesting (arguments before the call)
+	for i, j := 0, len(out)-1; i < j; i, j = i+1, j-1 {
+		out[i], out[j] = out[j], out[i]
+	}
+	return out
+}
+
+func (in *Interp) stmtCore(st *state, s ast.Stmt, fr *frame, k func(*state)) {
 	switch x := s.(type) {
 	case nil:
 		k(st)
@@ -560,7 +798,7 @@ func (in *Interp) stmt(st *state, s ast.Stmt, fr *frame, k func(*state)) {
 	case *ast.SendStmt:
 		in.exprEvents(st, x.Chan)
 		in.exprEvents(st, x.Value)
-		st.emit(&Event{Kind: EvSend, Pos: x.Pos(), Node: x, Chan: x.Chan, ChanObj: in.chanObj(st, x.Chan), ChanLit: in.chanLit(st, x.Chan), Val: x.Value, Blocking: true})
+		st.emit(&Event{Kind: EvSend, Pos: x.Pos(), Node: x, Chan: x.Chan, ChanObj: in.chanObj(st, x.Chan), ChanLit: in.chanLit(st, x.Chan), ChanField: in.chanField(st, x.Chan, 0), Val: x.Value, Blocking: true})
 		k(st)
 	case *ast.GoStmt:
 		in.argEvents(st, x.Call)
@@ -973,7 +1211,7 @@ func (in *Interp) selectStmt(st *state, x *ast.SelectStmt, fr *frame, k func(*st
 		s.emit(&Event{Kind: EvSelect, Pos: cc.Pos(), Node: x, Clause: cc, Select: x, Default: cc.Comm == nil, Blocking: !hasDefault})
 		switch m := cc.Comm.(type) {
 		case *ast.SendStmt:
-			s.emit(&Event{Kind: EvSend, Pos: m.Pos(), Node: m, Chan: m.Chan, ChanObj: in.chanObj(s, m.Chan), ChanLit: in.chanLit(s, m.Chan), Val: m.Value, Blocking: !hasDefault, Select: x})
+			s.emit(&Event{Kind: EvSend, Pos: m.Pos(), Node: m, Chan: m.Chan, ChanObj: in.chanObj(s, m.Chan), ChanLit: in.chanLit(s, m.Chan), ChanField: in.chanField(s, m.Chan, 0), Val: m.Value, Blocking: !hasDefault, Select: x})
 		case *ast.ExprStmt:
 			if u, ok := ast.Unparen(m.X).(*ast.UnaryExpr); ok && u.Op == token.ARROW {
 				s.emit(&Event{Kind: EvRecv, Pos: m.Pos(), Node: m, Chan: u.X, ChanObj: in.chanObj(s, u.X), Blocking: !hasDefault, Select: x})
@@ -1010,7 +1248,7 @@ func (in *Interp) chanObj(st *state, e ast.Expr) types.Object {
 	if call, ok := e.(*ast.CallExpr); ok {
 		return in.callee(st, call)
 	}
-	return in.objOf(e)
+	return in.pathObj(st, e)
 }
 
 // ------------------------------------------------------------------ expressions
@@ -1073,6 +1311,7 @@ func (in *Interp) callEvent(st *state, call *ast.CallExpr, deferredCall bool) *E
 			}
 		}
 		ev.ArgTypes = append(ev.ArgTypes, t)
+		ev.ArgObjs = append(ev.ArgObjs, in.pathObj(st, a))
 	}
 	return st.emit(ev)
 }
@@ -1600,6 +1839,29 @@ func (in *Interp) cond(st *state, e ast.Expr, kT, kF func(*state)) {
 			return
 		}
 	}
+	// a condition that is a call of a NEW helper (extracted by a refactoring): interpret its body
+	if call, ok := e.(*ast.CallExpr); ok {
+		if fi := in.inlinable(st, call); fi != nil && in.P.NewFuncs[fi.Obj] {
+			if sig := fi.Obj.Type().(*types.Signature); sig.Results().Len() == 1 {
+				in.callStmt(st, call, &frame{}, func(s *state, vals []Val) {
+					if len(vals) == 1 && vals[0].K == VBool {
+						if vals[0].B {
+							kT(s)
+						} else {
+							kF(s)
+						}
+						return
+					}
+					sT, sF := s.fork(), s.fork()
+					sT.emit(&Event{Kind: EvCond, Pos: e.Pos(), Node: e, Cond: e, Outcome: true})
+					sF.emit(&Event{Kind: EvCond, Pos: e.Pos(), Node: e, Cond: e, Outcome: false})
+					kT(sT)
+					kF(sF)
+				})
+				return
+			}
+		}
+	}
 	in.exprEvents(st, e)
 	v := in.eval(st, e)
 	if v.K == VBool {
@@ -1719,7 +1981,7 @@ func (in *Interp) assign(st *state, lhs, rhs []ast.Expr, tok token.Token, node a
 		}
 		for _, l := range lhs {
 			in.exprEvents(st, lhsBase(l))
-			o := in.objOf(l)
+			o := in.lhsObj(l)
 			ev := &Event{Kind: EvAssign, Pos: node.Pos(), Node: node, LHS: l, RHS: rhs[0], LObj: o}
 			if o != nil {
 				old, add := in.eval(st, l), in.eval(st, rhs[0])
@@ -1852,8 +2114,11 @@ func (in *Interp) bind(st *state, l, r ast.Expr, v Val, node ast.Node, def *Even
 	if id, ok := l.(*ast.Ident); ok && id.Name == "_" {
 		return
 	}
-	o := in.objOf(l)
+	o := in.lhsObj(l)
 	ev := &Event{Kind: EvAssign, Pos: node.Pos(), Node: node, LHS: l, RHS: r, LObj: o, RVal: v}
+	if r != nil {
+		ev.RObj = in.pathObj(st, r)
+	}
 	if o != nil {
 		if _, isIndex := ast.Unparen(l).(*ast.IndexExpr); !isIndex {
 			ko := in.key(l)
@@ -1892,7 +2157,7 @@ func (in *Interp) bind(st *state, l, r ast.Expr, v Val, node ast.Node, def *Even
 
 // inlinable returns the function to inline for call, or nil.
 func (in *Interp) inlinable(st *state, call *ast.CallExpr) *FuncInfo {
-	if in.Opts.Inline == nil {
+	if in.Opts.Inline == nil && len(in.P.NewFuncs) == 0 {
 		return nil
 	}
 	f, ok := in.callee(st, call).(*types.Func)
@@ -1900,12 +2165,16 @@ func (in *Interp) inlinable(st *state, call *ast.CallExpr) *FuncInfo {
 		return nil
 	}
 	fi := in.P.ByObj[f]
-	if fi == nil || fi.Decl.Body == nil || !in.Opts.Inline(f) {
+	isNew := in.P.NewFuncs[f]
+	if fi == nil || fi.Decl.Body == nil || !(isNew || (in.Opts.Inline != nil && in.Opts.Inline(f))) {
 		return nil
 	}
 	max := in.Opts.MaxDepth
 	if max == 0 {
 		max = 1
+	}
+	if isNew && max < 3 {
+		max = 3
 	}
 	if st.depth >= max {
 		return nil
@@ -1965,6 +2234,10 @@ func (in *Interp) callStmt(st *state, call *ast.CallExpr, fr *frame, k func(*sta
 				if t, ok := st.env.typs[ao]; ok {
 					st.env.typs[p] = t
 				}
+			}
+			delete(st.env.alias, p)
+			if ao := in.pathObj(st, call.Args[i]); ao != nil {
+				st.env.alias[p] = ao
 			}
 		}
 	}
@@ -2116,7 +2389,7 @@ func (in *Interp) mergeIf(st *state, x *ast.IfStmt) {
 			switch y := s.(type) {
 			case *ast.AssignStmt:
 				for i, l := range y.Lhs {
-					o := in.objOf(l)
+					o := in.lhsObj(l)
 					var r ast.Expr
 					if i < len(y.Rhs) {
 						r = y.Rhs[i]
